@@ -22,6 +22,9 @@ pub enum TOp {
     GuestPage(u32),
     LegacyLayout,
     /// size is 2^size_log2 for legacy, `size` verbatim for modern
+    /// the first half of device initialisation as every driver performs it (`Transport::begin_init`)
+    /// with this set of driver-supported features (VERSION_1 is added when the device offers it)
+    BeginInit(u64),
     QueueSet {
         q: u16,
         size_log2: u8,
@@ -66,6 +69,11 @@ fn apply<T: Transport>(t: &mut T, op: &TOp, version: u32) -> Res {
     match op {
         TOp::DevType => Res::U64(t.device_type() as u64),
         TOp::ReadFeat => Res::U64(t.read_device_features()),
+        TOp::BeginInit(sup) => {
+            let offered = t.read_device_features();
+            let sup = AllBits::from_bits_retain(*sup | (offered & 1 << 32));
+            Res::U64(t.begin_init(sup).bits())
+        }
         TOp::WriteFeat(v) => {
             t.write_driver_features(*v);
             Res::None
@@ -119,6 +127,14 @@ fn qs_args(version: u32, size_log2: u8, size: u32, d: u64, a: u64, u: u64, high:
         (s, d, a, u)
     } else {
         (size, d, a, u)
+    }
+}
+
+bitflags::bitflags! {
+    /// A driver feature set in which every bit is a known flag.
+    #[derive(Copy, Clone, Debug, PartialEq, Eq)]
+    pub struct AllBits: u64 {
+        const ALL = !0;
     }
 }
 
@@ -191,6 +207,30 @@ fn check_op(c: &TCase, op: &TOp, tr: &[(bool, u64, u8, u64)], res: &Res, pre: &P
             }
             if *res != Res::U64(pre.offered) {
                 return Err(format!("read_device_features() = {:x?}, device offers {:#x}", res, pre.offered));
+            }
+        }
+        TOp::BeginInit(sup) => {
+            // (the extra feature read made by the harness itself is part of the trace)
+            only(&[0x070, 0x014, 0x010, 0x024, 0x020, 0x028])?;
+            let sup = *sup | (pre.offered & 1 << 32);
+            if *res != Res::U64(pre.offered & sup) {
+                return Err(format!("begin_init negotiated {:x?}, device offers {:#x}, driver supports {:#x}", res, pre.offered, sup));
+            }
+            if post.3 != pre.offered & sup {
+                return Err(format!("driver features seen by the device {:#x}, negotiated {:#x}", post.3, pre.offered & sup));
+            }
+            let gps: Vec<u64> = tr.iter().filter(|a| a.0 && a.1 == 0x028).map(|a| a.3).collect();
+            if legacy {
+                // legacy interface: GuestPageSize must be programmed before any queue is used,
+                // whatever features the device offered
+                if gps != vec![4096] {
+                    return Err(format!("legacy device: GuestPageSize writes during initialisation {:?}, expected one write of 4096", gps));
+                }
+            } else if !gps.is_empty() {
+                return Err("modern device: GuestPageSize (a legacy-only register) was written".into());
+            }
+            if post.4 & 0xb != 0xb {
+                return Err(format!("status after begin_init is {:#x}, expected ACKNOWLEDGE|DRIVER|FEATURES_OK", post.4));
             }
         }
         TOp::WriteFeat(v) => {
@@ -619,6 +659,7 @@ fn top() -> impl Strategy<Value = TOp> {
         1 => Just(TOp::DevType),
         2 => Just(TOp::ReadFeat),
         2 => any::<u64>().prop_map(TOp::WriteFeat),
+        1 => any::<u64>().prop_map(TOp::BeginInit),
         2 => qidx().prop_map(TOp::MaxQ),
         3 => qidx().prop_map(TOp::Notify),
         1 => Just(TOp::GetStatus),
